@@ -11,6 +11,9 @@ use verif_harness::{env_u64, Line};
 
 mod gen;
 
+/// histories in which an operation never returned (each costs a full step time-out: two are evidence enough)
+static HANGS: std::sync::atomic::AtomicU32 = std::sync::atomic::AtomicU32::new(0);
+
 fn work_dir(tag: &str) -> PathBuf {
     let base = if std::path::Path::new("/dev/shm").is_dir() { PathBuf::from("/dev/shm") } else { std::env::temp_dir() };
     base.join(format!("verif-tower-{}-{}", std::process::id(), tag))
@@ -27,6 +30,7 @@ fn listener_order() -> Vec<u8> {
 /// Runs one abstract history on the real tower and renders the line.
 pub fn run_history(h: &gen::AHistory, init: &[(u64, bitcoin::Block)], dir: PathBuf, rec: &verif_harness::locks::Recorder) -> String {
     let mut w = World::new(h.cfg, dir.clone(), init, listener_order());
+    w.watch_hangs = true;
     rec.take_edges();
     let mut line = Line::new();
     line.tok("TW").tok(h.cfg.slots).tok(h.cfg.duration).tok(h.cfg.delta).tok(INIT_HEIGHT).tok(h.steps.len());
@@ -46,7 +50,8 @@ pub fn run_history(h: &gen::AHistory, init: &[(u64, bitcoin::Block)], dir: PathB
         }
         if !ok {
             rec.reset_thread();
-            let alive = w.alive();
+            // a handler that never returned holds its locks for ever: do not probe (the probe would hang too)
+            let alive = if w.hung { false } else { w.alive() };
             rec.take_edges();
             line.tok("|").tok("alive").tok(alive as u8).tok(";");
             break;
@@ -56,7 +61,13 @@ pub fn run_history(h: &gen::AHistory, init: &[(u64, bitcoin::Block)], dir: PathB
         rec.take_edges();
         line.tok(";");
     }
-    drop(w);
+    if w.hung {
+        HANGS.fetch_add(1, std::sync::atomic::Ordering::SeqCst);
+        // the stuck thread still owns the components: leave them alone
+        std::mem::forget(w);
+    } else {
+        drop(w);
+    }
     let _ = std::fs::remove_dir_all(&dir);
     line.0
 }
@@ -89,6 +100,9 @@ fn main() {
                 let h = gen::generate(&mut rng, &profile, i);
                 let l = run_history(&h, &init, dir.clone(), &rec);
                 writeln!(out, "{l}").unwrap();
+                if HANGS.load(std::sync::atomic::Ordering::SeqCst) >= 2 {
+                    break;
+                }
             }
             out.flush().unwrap();
         }
